@@ -45,6 +45,16 @@ def chain3():
     return d
 
 
+def dotted():
+    """a config whose NAME contains dots (segmentation.v2.yaml), with file, directory and resumable results"""
+    d = families.chain3(kinds=('dir', 'json', 'continues'))
+    d['name'] = 'dotted'
+    d['configs']['root']['medium'] = 'yaml'
+    d['configs']['root']['file'] = 'segmentation.v2.yaml'
+    d['variants'] = {'v0': []}
+    return d
+
+
 def diamond():
     d = families.diamond()
     d['variants'] = {'v0': []}
@@ -106,7 +116,7 @@ def resumable():
         'configs': {'root': {'medium': 'json', 'tasks': ['A', 'R'], 'values': {}}}, 'root': 'root', 'variants': {'v0': []}}
 
 
-WORLDS = {'twonsdiff': twons_diff, 'empties': empties, 'resumable': resumable, 'chain3': chain3, 'diamond': diamond, 'types': types_world, 'samehash': two_parameterless, 'usesns': uses_ns, 'twofiles': twofiles, 'partsnonmain': parts_nonmain}
+WORLDS = {'dotted': dotted, 'twonsdiff': twons_diff, 'empties': empties, 'resumable': resumable, 'chain3': chain3, 'diamond': diamond, 'types': types_world, 'samehash': two_parameterless, 'usesns': uses_ns, 'twofiles': twofiles, 'partsnonmain': parts_nonmain}
 
 
 def listing(root):
@@ -288,7 +298,7 @@ def _job(items):
 def run(tier, seed):
     items = []
     seqs = [s for n in (1, 2, 3) for s in itertools.product((True, False), repeat=n)]
-    for wname in (['chain3', 'samehash', 'usesns', 'types', 'twofiles', 'twonsdiff', 'partsnonmain', 'empties', 'resumable'] if tier == 'quick' else list(WORLDS)):
+    for wname in (['chain3', 'dotted', 'samehash', 'usesns', 'types', 'twofiles', 'twonsdiff', 'partsnonmain', 'empties', 'resumable'] if tier == 'quick' else list(WORLDS)):
         desc = WORLDS[wname]()
         n = len(refmodel.Model(worlds.apply_variant(desc, 'v0'), 'x').tasks)
         subsets = list(itertools.product((True, False), repeat=n))
